@@ -104,9 +104,15 @@ func (c *Case) arg(name string) *Arg {
 }
 
 // addDst adds the AEAD dst argument in one of the ways callers use it.
-func (g *gen) addDst(c *Case, src string, size int) {
-	modes := []string{"nil", "own-enough", "own-enough", "own-short", "own-exact", "inplace", "overlap"}
-	m := modes[g.r.Intn(len(modes))]
+var dstModes = []string{"nil", "own-enough", "own-short", "own-exact", "inplace", "overlap"}
+
+func (g *gen) addDst(c *Case, src string, size int) { g.addDstMode(c, src, size, "") }
+
+func (g *gen) addDstMode(c *Case, src string, size int, m string) {
+	if m == "" {
+		modes := append([]string{"own-enough"}, dstModes...)
+		m = modes[g.r.Intn(len(modes))]
+	}
 	s := c.arg(src)
 	if (m == "inplace" || m == "overlap") && (s == nil || s.Nil) {
 		m = "own-enough"
